@@ -908,3 +908,14 @@ fn test_exp_modn() {
         exp_modn_large(&zn, &zn.from_int(two), &U1024::cast_from(p480 - Uint::ONE))
     );
 }
+
+/// Read-only access to private items for the verification harness.
+#[cfg(yamaquasi_verif)]
+pub mod verif_access {
+    use super::*;
+
+    /// The exponent blocks and the stage 2 primes of the 64-bit P-1 base.
+    pub fn pm1base_blocks(b: &PM1Base) -> (Vec<u32>, Vec<u32>) {
+        (b.factors.to_vec(), b.larges.to_vec())
+    }
+}
